@@ -38,4 +38,13 @@ def link_callback(ctx, prog):
 
 link_callback.rule_id = "C16.PDOM-link-callback"
 
-RULES = [rewire, weak_prev_nodes, link_callback]
+def sched(ctx, prog):
+    """Unequal -> make_stale(per-key node), Right -> add_dependency, Left -> remove_dependency: each must leave
+    its staleness mark whether or not the node is necessary at that moment (C14.PDOM-sched, reported here too)."""
+    from .c14 import pdom_sched
+    pdom_sched(ctx, prog, "C16.PDOM-sched")
+
+
+sched.rule_id = "C16.PDOM-sched"
+
+RULES = [rewire, weak_prev_nodes, link_callback, sched]
